@@ -712,6 +712,13 @@ class TaskDispatcher(object):
                     a timeout.
                     """
                     self.schedule_orphaned_response_handler()
+            elif correlation_id in self.orphaned_responses:
+                """
+                A response with this correlation ID is still being held from
+                before the retention period was up, leave that to its timeout
+                and just acknowledge this further response.
+                """
+                message.acknowledge(multiple=False)
             else:
                 """
                 If the uptime is more than the retention period for orphaned
